@@ -235,6 +235,9 @@ type Net struct {
 	OnRelayDelivered func(target int, last, src p2p.Peer)
 	// OnNonNeighbour is called when a node opens a stream to a node it is not linked to.
 	OnNonNeighbour func(from int, to boson.Address, stream string)
+	// RelayStream, when set, serves Streamer.NewRelayStream (used by FindUnderlay): it
+	// returns the caller's end of a stream whose other end the test scripts.
+	RelayStream func(from int, target boson.Address, protocol, version, stream string) (p2p.Stream, error)
 
 	closers sync.WaitGroup
 }
@@ -331,6 +334,9 @@ func (n *Net) newNode(rng *rand.Rand, idx int, o Options) (*Node, error) {
 	}
 	return nd, nil
 }
+
+// Handler returns the node's real handler of the named routetab stream.
+func (nd *Node) Handler(stream string) p2p.HandlerFunc { return nd.handlers[stream] }
 
 // Link connects two nodes in both directions (address book entry + kademlia connection).
 func (n *Net) Link(i, j int) error {
@@ -454,6 +460,9 @@ func (s *streamer) NewStream(ctx context.Context, address boson.Address, h p2p.H
 }
 
 func (s *streamer) NewRelayStream(ctx context.Context, address boson.Address, h p2p.Headers, protocol, version, stream string, midCall bool) (p2p.Stream, error) {
+	if f := s.net.RelayStream; f != nil {
+		return f(s.from, address, protocol, version, stream)
+	}
 	return nil, errors.New("rtsim: relay streams (virtual) are not simulated")
 }
 
